@@ -25,6 +25,7 @@ namespace thr
         std::vector<int64_t> change;      // mode 1: decision numbers at which the running thread drops to lowest priority
         int mem_preempt_every = 0;        // 0: no preemption at memory accesses; k: decision point at every k-th access
         uint64_t step_cap = 20000;        // synchronisation events per run
+        std::string prop = "C20";         // property id used as prefix of the violation signatures
     };
 
     struct Hooks
